@@ -110,6 +110,22 @@ FAMILIES = {
         "queries": [Q("satisfiable"), Q("eval", e="a", n=2), Q("min", e="b")],
         "probes": [Q("satisfiable")],
     },
+    # three 2-bit variables (64 assignments): the universe of the ghost-children runs (vf/rtc/ghost.py)
+    "gh": {
+        "vars": {"a": 2, "b": 2, "c": 2},
+        "adds": ["a == 1", "UGT(b, 1)", "ULT(a, b)", "b + c == 3", "c != 0", "a + b == c", "ULE(c, 1)", "a != 1", "b == 2", "FALSE",
+                 "Or(a == 2, c == 2)"],
+        "queries": [
+            Q("eval", e="a", n=4), Q("eval", e="a + b", n=4), Q("batch_eval", es=["a", "c"], n=16), Q("max", e="b"),
+            Q("min", e="c", signed=True), Q("satisfiable"), Q("satisfiable", x=["a == b"]), Q("solution", e="b + c", v=1),
+            Q("eval", e="c", n=4, x=["ULT(b, c)"]), Q("max", e="a + c", signed=True), Q("eval", e="b", n=4),
+        ],
+        "rqueries": [0, 1, 3, 5, 6, 10],
+        "radds": [0, 1, 2, 3, 4, 8],
+        "probes": [Q("satisfiable"), Q("eval", e="a", n=4), Q("batch_eval", es=["b", "c"], n=16), Q("eval", e="a + b", n=4)],
+        "conds": [["c == 1", "c == 2"], ["ULT(a, 2)", "UGE(a, 2)"], ["TRUE", "b == c"]],
+        "exprs": ["a", "c", "a + b", "b == c"],
+    },
     # strings (z3 sequence theory; no enumeration oracle): lengths are pinned so that z3 decides quickly
     "str": {
         "vars": {"s": "S", "t": "S"},
@@ -335,6 +351,76 @@ def gen_triple(fam, rng, count):
         yield kind + "3", steps
 
 
+def gen_cow(fam, maxops=3, npre=2):
+    """copy-on-write patterns: a prefix of adds, an optional query that spans children (fills the merged-solver cache), a
+    branch, then EVERY sequence of up to `maxops` adds/queries distributed over the two sides, then probes on both"""
+    F = FAMILIES[fam]
+    adds, qs = fam_ops(fam, True)
+    adds, qs = adds[:5], qs[:4]
+    pres = [[a] for a in adds[:3]] + [[a, b] for a in adds[:4] for b in adds[:4] if a is not b]
+    warm = [None, qs[1], qs[0]]
+    side_ops = [dict(o, on=on) if on else dict(o) for on in (0, 1) for o in (adds[:4] + qs[:3])]
+    for pre in pres[:npre * 6]:
+        for wq in warm:
+            for L in range(1, maxops + 1):
+                for seq in itertools.product(side_ops, repeat=L):
+                    steps = [dict(a) for a in pre]
+                    if wq:
+                        steps.append(dict(wq))
+                    steps.append(Q("branch"))
+                    steps += [dict(o) for o in seq]
+                    for p in F["probes"][:3]:
+                        steps.append(dict(p))
+                        steps.append(dict(p, on=1))
+                    yield f"cow{L}", steps
+
+
+def gen_combine3(fam):
+    """three independently created solvers, each with one or two adds and an optional query (so that it holds a cached
+    model), combined / merged in every role assignment; probes on the result"""
+    F = FAMILIES[fam]
+    adds, qs = fam_ops(fam, False)
+    adds = adds[:9]
+    warm = [None, Q("satisfiable"), qs[0]]
+    for a0 in adds:
+        for a1 in adds:
+            for a2 in adds:
+                for w in warm:
+                    for recv in (0, 1, 2):
+                        steps = [Q("new"), Q("new"), dict(a0), dict(a1, on=1), dict(a2, on=2)]
+                        if w:
+                            steps += [dict(w), dict(w, on=1), dict(w, on=2)]
+                        others = [i for i in (0, 1, 2) if i != recv]
+                        steps.append(Q("combine", others=others, **({"on": recv} if recv else {})))
+                        for p in F["probes"]:
+                            steps.append(dict(p, on=3))
+                        yield "combine3", steps
+
+
+def gen_merge3(fam):
+    """three solvers branched from one root (a prefix of 0-2 adds), zero or one add on each side, merged three-way WITHOUT a
+    common ancestor and with trivial conditions: the result must have exactly the union of the three model sets"""
+    F = FAMILIES[fam]
+    adds, qs = fam_ops(fam, True)
+    adds = adds[:6]
+    pres = [[]] + [[a] for a in adds[:4]] + [[a, b] for a in adds[:3] for b in adds[:3] if a is not b]
+    opt = [None] + adds
+    for pre in pres:
+        for x0 in opt:
+            for x1 in opt:
+                for x2 in opt:
+                    if x0 is None and x1 is None and x2 is None:
+                        continue
+                    steps = [dict(a) for a in pre] + [Q("branch"), Q("branch")]
+                    for on, x in ((0, x0), (1, x1), (2, x2)):
+                        if x is not None:
+                            steps.append(dict(x, on=on) if on else dict(x))
+                    steps.append(Q("merge", others=[1, 2], conds=["TRUE", "TRUE", "TRUE"], ancestor=None))
+                    for p in F["probes"][:2]:
+                        steps.append(dict(p, on=3))
+                    yield "merge3", steps
+
+
 def gen_split(fam, reduced=False, maxadds=3):
     """solvers grown by adds (in every order) and an optional warm-up query / simplify, then split();
     every piece is probed afterwards (the driver gives each piece the ghost items over its variables)."""
@@ -464,7 +550,7 @@ class Acc:
         self.t0 = time.time()
 
     def run(self, cfg, vars, kind, steps):
-        r = driver.run_history(cfg, vars, steps)
+        r = driver.run_history(cfg, vars, steps, xcheck=not cfg.get("ghost"))
         self.histories += 1
         self.kinds[kind] = self.kinds.get(kind, 0) + 1
         self.evaluations += r["checks"]
